@@ -18,7 +18,7 @@ RULE = ('case = generated pipeline over every group form (none, single, multi-le
         '(result, <key>.run_info.yaml, <key>.log, declared work areas); committed golden vectors re-checked on every run. non-trivial = '
         '>=3 tasks and >=1 edge; distinct = hash(modules, files, root)')
 REQUIRED = ['builds', 'tasks_built', 'golden_vectors_checked', 'files_on_disk_checked', 'results_at_frozen_location', 'name_mode_builds',
-            'module_group_tasks', 'multi_level_group_tasks']
+            'module_group_tasks', 'multi_level_group_tasks', 'value_level_keys_checked', 'values_with_non_string_mapping_keys']
 ASSUMPTIONS = ['the pinned tree equals release 1.4.0 in layout and key derivation (README lists only the `~~` input form as unpublished); no 1.4.0 '
                'artefact is available offline, the scheme is frozen in /verif/tc_verif/refscheme.py and pinned by /verif/golden/keys.jsonl',
                'name mode is exercised without contexts and with file-based config names']
@@ -90,9 +90,106 @@ def after_run(lab, ref, spec, root, st, res, witness):
             res.count('multi_level_group_tasks')
 
 
+def gen_keyed_value(rng, depth=0):
+    """parameter values as python / YAML configs can hold them: mappings keyed by ints or floats (numeric order differs from textual order), nested"""
+    r = rng.random()
+    if depth < 3 and r < 0.35:
+        kind = rng.choice(['int', 'int', 'float', 'str', 'neg'])
+        pool = {'int': [1, 2, 3, 10, 12, 100, 20], 'float': [0.5, 1e-3, 2.0, 10.5, 1e16, 3.25], 'str': ['b', 'a', 'B', '10', '2', 'é'],
+                'neg': [-1, -10, -2, 0, 5]}[kind]
+        keys = rng.sample(pool, rng.randint(1, min(5, len(pool))))
+        return {k: gen_keyed_value(rng, depth + 1) for k in keys}
+    if depth < 3 and r < 0.5:
+        return [gen_keyed_value(rng, depth + 1) for _ in range(rng.randint(0, 3))]
+    return rng.choice([0, 1, -3, 2.5, 1e-05, True, None, 'x', 'é y', '', 10 ** 12])
+
+
+def check_values(rng, n, res: CaseResult):
+    """value level: key of a real one-task chain for parameter value v == key of the frozen scheme for v"""
+    import shutil
+    import tempfile
+    from pathlib import Path
+    from .c03 import key_of
+    tmp = Path(tempfile.mkdtemp(prefix='c12-'))
+    try:
+        for _ in range(n):
+            v = gen_keyed_value(rng)
+            try:
+                want = refscheme.key({'p': v}, {}, None)
+            except TypeError:
+                continue
+            try:
+                got = key_of(v, tmp)
+            except Exception as e:
+                res.violate(f'parameter value {v!r}: the chain could not derive a key: {type(e).__name__}: {e}', witness={'value': repr(v)}, facts={'tag': 'value_key'})
+                continue
+            res.count('value_level_keys_checked')
+            if isinstance(v, dict) and any(not isinstance(k, str) for k in v):
+                res.count('values_with_non_string_mapping_keys')
+                res.nt(jhash(['v', repr(v)]))
+            if got != want:
+                res.violate(f'parameter value {v!r}: key {got} differs from the frozen 1.4.0 scheme {want} (text {refscheme.params_repr({"p": v}, False)!r})',
+                            witness={'value': repr(v)}, facts={'tag': 'value_key'})
+    finally:
+        shutil.rmtree(tmp, ignore_errors=True)
+
+
+def check_factory_classes(rng, res: CaseResult):
+    """task classes made by one factory function (same module, same qualified name, other Meta): each is stored under ITS group / name / key"""
+    import shutil
+    import tempfile
+    from pathlib import Path
+    from taskchain import Config, Task
+    from taskchain.parameter import Parameter
+
+    def make(name, group, pname):
+        class Export(Task):
+            class Meta:
+                parameters = [Parameter(pname)]
+
+            def run(self) -> dict:
+                return {'made_for': name}
+        Export.Meta.name = name
+        if group:
+            Export.Meta.task_group = group
+        return Export
+    tmp = Path(tempfile.mkdtemp(prefix='c12f-'))
+    try:
+        decls = [(rng.choice(['export_csv', 'export_tsv', 'dump', 'x']) + str(i), rng.choice([None, 'exports', 'io:out']), rng.choice(['sep', 'fmt'])) for i in range(rng.randint(2, 4))]
+        for name, group, pname in decls:
+            cls = make(name, group, pname)
+            val = rng.choice([1, 'a', [1, 2]])
+            slug = (group + ':' if group else '') + name
+            res.count('factory_made_classes_checked')
+            try:
+                chain = Config(tmp, name='cfg', data={'tasks': [cls], pname: val}).chain()
+            except Exception as e:
+                res.violate(f'task class made by a factory (Meta name={name!r}, group={group!r}, parameter {pname}={val!r}): the chain cannot be built: {type(e).__name__}: {e}',
+                            witness={'decls': decls}, facts={'tag': 'factory_class'})
+                continue
+            if slug not in chain.tasks:
+                res.violate(f'task class made by a factory with Meta name={name!r} group={group!r}: the chain knows it as {list(chain.tasks)}', witness={'decls': decls},
+                            facts={'tag': 'factory_class'})
+                continue
+            t = chain.tasks[slug]
+            want = refscheme.rel_path(slug, refscheme.key({pname: val}, {}, None), 'json_dict')
+            got = str(Path(t.data_path).relative_to(tmp))
+            if got != want:
+                res.violate(f'task class made by a factory (Meta name={name!r}, group={group!r}, parameter {pname}={val!r}): stored at {got}, the frozen layout says {want}',
+                            witness={'decls': decls}, facts={'tag': 'factory_class'})
+    finally:
+        shutil.rmtree(tmp, ignore_errors=True)
+
+
 def run_case(case) -> CaseResult:
     res = CaseResult()
     rng = random.Random(case['seed'])
+    if case.get('values'):
+        check_values(rng, case['n'], res)
+        for _ in range(5):
+            check_factory_classes(rng, res)
+        res.sample = {'kind': 'values', 'n': case['n']}
+        return res
     if case.get('golden'):
         check_golden(res)
         res.sample = {'golden_file': str(GOLDEN)}
@@ -114,3 +211,5 @@ def cases(tier, seed):
     n = 150 if tier == 'quick' else 5000
     for i in range(n):
         yield {'n': 5, 'seed': rng.randrange(1 << 30), 'name_mode': i % 6 == 5}
+        if i % 10 == 0:
+            yield {'values': True, 'n': 150, 'seed': rng.randrange(1 << 30)}
